@@ -123,8 +123,9 @@ func runC11(c *Ctx) {
 	for i := 0; i < n; i++ {
 		hists = append(hists, randomHist(r, 6+r.Intn(8)))
 	}
-	finishHist(c, "C11", runHists(c, allCfgs(), hists), "rejected-then-accepted loads, superseding refreshes, two issuers with overlapping serials, probes next to listed serials + random histories, on all 24 configurations; plus 13 issuer/serial pairs that any sloppier key construction identifies (separator moved into the name or the serial bytes, dropped separator, hex/decimal/raw forms, sign bit, prefixes) on both backends")
+	finishHist(c, "C11", runHists(c, allCfgs(), hists), "rejected-then-accepted loads, superseding refreshes, two issuers with overlapping serials, probes next to listed serials + random histories, on all 24 configurations; plus 13 issuer/serial pairs that any sloppier key construction identifies (separator moved into the name or the serial bytes, dropped separator, hex/decimal/raw forms, sign bit, prefixes) on both backends; plus lists carrying each of seven unimplemented critical extensions (none may revoke)")
 	c.Rep.Cases += c11KeyStage(c)
+	c.Rep.Cases += c11CriticalStage(c)
 }
 
 func runC16(c *Ctx) {
